@@ -487,7 +487,50 @@ pub fn from_state_map(m: &StateMap<OwnedEventId>) -> SMap {
     m.iter().map(|((t, k), id)| ((t.to_string(), k.clone()), id.to_string())).collect()
 }
 
+/// One resolution of an unrelated room (another creator, conflicting power events that have no
+/// power-levels event among their auth events) before the first real one: whatever a resolution
+/// leaves behind in the process must not influence later resolutions of other rooms.
+fn decoy_resolution() {
+    let h = History {
+        version: 6,
+        initial_power_levels: false,
+        ts_mode: 0,
+        ops: vec![
+            Op::Act { head: 0, user: 1, action: Action::Join, ts: 2, salt: 1 },
+            Op::Fork { head: 0 },
+            Op::Act { head: 0, user: 0, action: Action::SetJoinRule(1), ts: 5, salt: 2 },
+            Op::Act { head: 65535, user: 0, action: Action::SetJoinRule(2), ts: 6, salt: 3 },
+            Op::Act { head: 0, user: 0, action: Action::SetUserLevel(1, 2), ts: 7, salt: 4 },
+        ],
+        picks: vec![],
+    };
+    let built = Room::build(&h);
+    let rename = |x: &str| x.replace(USERS[0], "@decoy:s9");
+    let mut r = Room { version: built.version, events: BTreeMap::new(), order: built.order.clone(), state_after: built.state_after.clone(), heads: built.heads.clone(), pdus: HashMap::new(), skipped_ops: 0, merges: 0, counter: 0, auth_order: 0 };
+    for (id, e) in &built.events {
+        let mut e = e.clone();
+        e.sender = rename(&e.sender);
+        e.state_key = e.state_key.as_deref().map(rename);
+        e.content = serde_json::from_str(&rename(&e.content.to_string())).unwrap_or(Value::Null);
+        if let Ok(p) = Pdu::from_ev(&e) {
+            r.pdus.insert(p.id.clone(), p);
+        }
+        r.events.insert(id.clone(), e);
+    }
+    let sets: Vec<SMap> = r.heads.iter().filter_map(|hd| r.state_after.get(hd).cloned()).collect();
+    if sets.len() < 2 {
+        return;
+    }
+    let chains: Vec<BTreeSet<String>> = sets.iter().map(|s| r.auth_chain(s)).collect();
+    let rules = rules_for(r.version).authorization;
+    let maps: Vec<StateMap<OwnedEventId>> = sets.iter().map(to_state_map).collect();
+    let chain_sets: Vec<HashSet<OwnedEventId>> = chains.iter().map(|c| c.iter().filter_map(|id| OwnedEventId::try_from(id.as_str()).ok()).collect()).collect();
+    let _ = ruma_state_res::resolve(&rules, maps.iter(), chain_sets, |id| r.fetch(id));
+}
+
 pub fn ruma_resolve(r: &Room, sets: &[SMap], chains: &[BTreeSet<String>]) -> Result<SMap, String> {
+    static DECOY: std::sync::Once = std::sync::Once::new();
+    DECOY.call_once(decoy_resolution);
     let rules = rules_for(r.version).authorization;
     let maps: Vec<StateMap<OwnedEventId>> = sets.iter().map(to_state_map).collect();
     let chain_sets: Vec<HashSet<OwnedEventId>> = chains.iter().map(|c| c.iter().map(|id| OwnedEventId::try_from(id.as_str()).expect("id")).collect()).collect();
